@@ -1267,6 +1267,9 @@ func (e *Env) ways(lits []ir.NLit, fn func(lits []ir.NLit)) {
 		}
 		for _, t := range e.expandTableLits(plain) {
 			for _, t2 := range e.expandPhiConst(t, 0) {
+				if nilContradiction(t2) {
+					continue // `err != nil` of a helper's failing return with the caller's `err == nil`: not a way at all
+				}
 				undo := ir.SetOverride(bind)
 				fn(t2)
 				undo()
@@ -1659,4 +1662,23 @@ func funcOfValue(v ssa.Value) *ssa.Function {
 		return x
 	}
 	return nil
+}
+
+// nilContradiction: the conjunction says of one value both that it is nil and that it
+// is not, or of one boolean both that it holds and that it does not.
+func nilContradiction(lits []ir.NLit) bool {
+	for i, a := range lits {
+		for _, b := range lits[i+1:] {
+			if a.Kind == "cmp" && b.Kind == "cmp" && ir.IsNilConst(a.Y) && ir.IsNilConst(b.Y) && ir.Resolve(a.X) == ir.Resolve(b.X) &&
+				((a.Op == token.EQL && b.Op == token.NEQ) || (a.Op == token.NEQ && b.Op == token.EQL)) {
+				return true
+			}
+			if a.Kind == "val" && b.Kind == "val" && a.Pol != b.Pol && a.V != nil && ir.Resolve(a.V) == ir.Resolve(b.V) {
+				if _, isCall := ir.Resolve(a.V).(*ssa.Call); !isCall {
+					return true
+				}
+			}
+		}
+	}
+	return false
 }
